@@ -217,9 +217,13 @@ def cmd_replay(path: str) -> int:
     if res["harness"]:
         print(f"HARNESS-ERROR property={cid} {res['harness']}")
         return 2
+    def compatible(a: dict, b: dict) -> bool:
+        # same clause, and every attribute both signatures carry agrees (signatures gained attributes over time)
+        return a.get("clause") == b.get("clause") and all(a[k] == b[k] for k in a.keys() & b.keys())
+
     for v in res["violations"]:
-        if sig_of(v) == doc["signature"]:
-            same = sim.digest() == doc.get("digest")
+        if sig_of(v) == doc["signature"] or compatible(sig_of(v), doc["signature"]):
+            same = sim.digest() == doc.get("digest") or sig_of(v) != doc["signature"]
             print(f"VIOLATION property={cid} replay={path}")
             print(f"  signature={sig_key(sig_of(v))}")
             print(f"  message={v.get('msg', '')}")
@@ -332,6 +336,22 @@ def cmd_check(cid: str, tier: str) -> int:
     for f in findings:
         if f["id"] in known_seen:
             print(f"KNOWN-FINDING: property={cid} {f['id']}: {f['text']} (seen {known_seen[f['id']]}x)")
+    if os.environ.get("VERIF_REPLAY_KNOWN"):
+        # development aid: also write a minimised replay file for each known finding seen in this run
+        for sk in sorted(viol):
+            slot = viol[sk]
+            sig = sig_of(slot["v"])
+            if match_known(sig, findings) is None:
+                continue
+            small, _ = minimise(mod, slot["plan"], sig)
+            res, sim2 = replay_plan(mod, small)
+            v2 = next((v for v in res["violations"] if sig_of(v) == sig), None)
+            if v2 is None:
+                small = slot["plan"]
+                res, sim2 = replay_plan(mod, small)
+                v2 = next((v for v in res["violations"] if sig_of(v) == sig), slot["v"])
+            small["tape"] = sim2.used_tape()
+            print(f"  known finding replay: {write_replay(cid, small, v2, sim2.digest())}")
     replay_paths = []
     for sk, slot in new_violations[:8]:
         sig = sig_of(slot["v"])
